@@ -39,6 +39,7 @@ var solverCmd = []string{"z3", "-in", "-t:10000"}
 // second solver, asked when the first one gives up: cvc5 with the integer
 // encoding of bit-vector arithmetic, which decides mul/div/rem equivalences
 // that bit-blasting does not finish (one process per query; rare)
+var fallbackFPCmd = []string{"cvc5", "--fp-exp", "--tlimit=60000", "--produce-models"}
 var fallbackCmd = []string{"cvc5", "--solve-bv-as-int=sum", "--tlimit=20000", "--produce-models"}
 var dumpQueries *os.File
 var dumpMu sync.Mutex
@@ -61,6 +62,15 @@ func NewSolver() *Solver {
 	}
 	s.Reset()
 	return s
+}
+
+// setSolverTimeout changes the per-query limits for the solvers started next (0 = default).
+func setSolverTimeout(ms int) {
+	if ms <= 0 {
+		ms = 10000
+	}
+	solverCmd = []string{"z3", "-in", fmt.Sprintf("-t:%d", ms)}
+	hardTimeout = time.Duration(ms)*time.Millisecond + 15*time.Second
 }
 
 // hard limit per query: z3's soft timeout (-t) is not honoured in every phase
@@ -199,7 +209,11 @@ func (s *Solver) fallback(extra *Term, first string) string {
 	}
 	f.WriteString(sb.String())
 	f.Close()
-	out, _ := exec.Command(fallbackCmd[0], append(fallbackCmd[1:], f.Name())...).Output()
+	fb := fallbackCmd
+	if strings.Contains(sb.String(), "FloatingPoint") {
+		fb = fallbackFPCmd // the integer encoding does not cover FP; cvc5's FP solver is much faster than z3's here
+	}
+	out, _ := exec.Command(fb[0], append(fb[1:], f.Name())...).Output()
 	txt := string(out)
 	line := ""
 	for _, l := range strings.Split(txt, "\n") {
